@@ -57,6 +57,9 @@ theorem tmod_mul_eq_zero {x b : Int} (c : Int) (h : x.tmod b = 0) : (x * c).tmod
 theorem remI128_ok {x y : Int} (hy : y ≠ 0) (hx : x ≠ I128_MIN) : remI128 x y = .ok (x.tmod y) := by
   unfold remI128; simp [hy, hx]
 
+theorem wrappingRemI128_ok {x y : Int} (hy : y ≠ 0) : wrappingRemI128 x y = .ok (x.tmod y) := by
+  unfold wrappingRemI128; simp [hy]
+
 theorem remI128_ok' {x y : Int} (hy : y ≠ 0) (hy1 : y ≠ -1) : remI128 x y = .ok (x.tmod y) := by
   unfold remI128; simp [hy, hy1]
 
